@@ -6,7 +6,7 @@ fail=0
 for f in selftest/mutants/*${1:-}*.patch; do
   [ -e "$f" ] || continue
   pid=$(basename $f | cut -d- -f1)
-  out=$(VF_NORETRY=1 MUT_LINES=2 tools/mutcheck.sh $f $pid 1 2>&1 | grep -v WARNING)
+  out=$(MUT_LINES=3 tools/mutcheck.sh $f $pid 1 2>&1 | grep -v WARNING)
   if echo "$out" | grep -q MUTCHECK-OK; then echo "killed   $f: $(echo "$out" | grep -m1 VIOLATION | sed 's/.*replay=<out>.replays.//')"; else echo "SURVIVED $f"; echo "$out" | tail -3; fail=1; fi
 done
 for f in selftest/mustpass/*${1:-}*.patch; do
